@@ -132,6 +132,12 @@ def designed_histories():
     hs.append(("type bit differs inside a group", H([(A, F, 1), (T1, C, 2), (T1, L, 3)])))
     hs.append(("FIRST with another flag supersedes the open group", H([(A, F, 1), (A, C, 2), (S1, F, 3), (A, L, 4), (A, L, 5)])))
     hs.append(("version differs between groups of one APID", H([(V1, F, 1), (A, L, 2), (A, F, 3), (V1, L, 4)])))
+    # the rules are the same whatever the other header bits of the members say (telecommand type, secondary header, version)
+    for bits in (T1, S1, V1, (A, (("type", 1), ("shf", 1), ("version", 7))), (2047, (("type", 1),))):
+        tag = ",".join(f"{k}={v}" for k, v in bits[1])
+        hs.append((f"every member has {tag} (APID {bits[0]}): sequence gap", H([(bits, F, 5), (bits, C, 7), (bits, L, 8), (bits, L, 9)])))
+        hs.append((f"every member has {tag} (APID {bits[0]}): in sequence", H([(bits, F, 5), (bits, C, 6), (bits, L, 7), (bits, U, 8)])))
+        hs.append((f"every member has {tag} (APID {bits[0]}): orphans and repeated count", H([(bits, C, 5), (bits, L, 6), (bits, F, 7), (bits, L, 7)])))
     # later members whose data field is as long as / shorter than / one byte longer than the secondary header
     for n in (1, 2, 3):
         hs.append((f"later members with {n}-byte data fields",
